@@ -319,9 +319,16 @@ func (f *Flooder) HandleRouteAdvertise(
 		f.routeMgr.ProcessForwardRouteAdvertise(fromPeer, originAgent, sequence, forwardEntries, path, encPath)
 	}
 
-	// Flood to other peers (forward encrypted path as-is)
+	// Flood to other peers (forward encrypted path as-is).
+	// The forwarded copy carries each metric as seen from this agent (one hop
+	// more than received), so every receiver records metric = hop count.
+	fwdRoutes := make([]protocol.Route, len(routes))
+	copy(fwdRoutes, routes)
+	for i := range fwdRoutes {
+		fwdRoutes[i].Metric++
+	}
 	newSeenBy := append(seenBy, f.localID)
-	f.floodAdvertisementEncrypted(fromPeer, originAgent, originDisplayName, sequence, routes, encPath, newSeenBy)
+	f.floodAdvertisementEncrypted(fromPeer, originAgent, originDisplayName, sequence, fwdRoutes, encPath, newSeenBy)
 
 	return true
 }
